@@ -291,10 +291,16 @@ class Alias(ast.NodeTransformer):
         return node
 
 
-MODES = ("rename", "swap", "both", "noelse", "temps", "keys", "desugar", "guard", "comp", "alias")
+MODES = ("rename", "swap", "both", "noelse", "temps", "keys", "desugar", "guard", "comp", "alias", "chain")
+CHAIN = ("keys", "swap", "noelse", "guard", "comp", "alias", "temps", "rename")
 
 
 def transform_tree(mode, tree):
+    if mode == "chain":
+        for m in CHAIN:
+            tree = transform_tree(m, tree)
+            tree = ast.parse(ast.unparse(tree))
+        return tree
     if mode in ("rename", "both"):
         tree = Renamer().visit(tree)
     if mode in ("swap", "both"):
